@@ -308,12 +308,22 @@ class Translator:
         if kwd.get('read_npy') != 'Constant(value=True)' or kwd.get('save') != 'Constant(value=True)':
             raise TranslateError('read_directory: defaults of read_npy/save changed')
         body = strip_doc(fn.body)
+        self.resave_mesh_read = True
         read_sent = resave_sent = None
         pos_load = pos_parse = pos_resave = None
         for i, st in enumerate(body):
             if isinstance(st, ast.If) and isinstance(st.test, ast.BoolOp) and isinstance(st.test.op, ast.And) \
-                    and len(st.test.values) == 2:
-                a, b = st.test.values
+                    and len(st.test.values) in (2, 3):
+                vals = list(st.test.values)
+                # `save and not read_mesh_only and not sentinel.exists()`: no re-save on mesh-only reads
+                if len(vals) == 3:
+                    if is_name(vals[0], 'save') and ast.dump(vals[1]) == \
+                            "UnaryOp(op=Not(), operand=Name(id='read_mesh_only', ctx=Load()))":
+                        self.resave_mesh_read = False
+                        vals = [vals[0], vals[2]]
+                    else:
+                        raise TranslateError(f'read_directory: unsupported test {ast.unparse(st.test)}')
+                a, b = vals
                 if is_name(a, 'read_npy') and isinstance(b, ast.Call) and isinstance(b.func, ast.Attribute) \
                         and b.func.attr == 'exists' and not b.args:
                     if read_sent is not None:
@@ -323,7 +333,8 @@ class Translator:
                     ok = isinstance(last, ast.Return) and isinstance(last.value, ast.Call) and \
                         dump(last.value.func) == "Attribute(value=Name(id='cls', ctx=Load()), attr='read_npy_directory', ctx=Load())" \
                         and len(last.value.args) == 1 and is_name(last.value.args[0], 'dir_name') \
-                        and [k.arg for k in last.value.keywords] == ['read_mesh_only'] and not st.orelse
+                        and [(k.arg, ast.unparse(k.value)) for k in last.value.keywords] == \
+                        [('read_mesh_only', 'read_mesh_only')] and not st.orelse
                     for x in st.body[:-1]:
                         ok = ok and isinstance(x, ast.Expr) and isinstance(x.value, ast.Call) and is_name(x.value.func, 'print')
                     if not ok:
@@ -463,6 +474,7 @@ def translate(repo):
     names, pat = t.translate_load()
     cfg = {'steps_full': full, 'steps_mesh': mesh, 'read_sentinel': read_sent,
            'resave_sentinel': resave_sent, 'load_names': names, 'glob': pat,
+           'resave_mesh_read': t.resave_mesh_read,
            'classes': classes}
     return cfg, t.consumed
 
@@ -498,6 +510,7 @@ Definition cfg : save_cfg := {{|
   resave_sentinel := {coq_str(cfg['resave_sentinel'])};
   load_names :=
     {names};
+  resave_mesh_read := {'true' if cfg['resave_mesh_read'] else 'false'};
   glob_order := fun l => l |}}.
 '''
 
